@@ -11,6 +11,10 @@ Implementation side: the real `joblib.hashing.Hasher` / `joblib.hash` from VERIF
   interpreters with PYTHONHASHSEED in {0, 1, 2, random}; all digests of one value must agree; and over the whole
   generated universe two values have the same digest iff they are the same value (all pairs, by grouping).
 
+* values with SHARED sub-objects (`["@", label, desc]` / `["r", label]`, see `aliased_family`): oracle only — the same
+  determinism demands, and two values of different CONTENT (`content`: references unfolded) never have the same digest,
+  whatever their sharing; plus the memo numbering of the real `Hasher` (`memo_trace`) against `HashMemo.run`.
+
 Values are described by JSON-able `desc`s (see `build`), so that a case replays exactly, in any interpreter.
 """
 
@@ -53,6 +57,11 @@ REQUIRED_THEOREMS = [
     "C08.regressed_ordereddict_collision_counterexample",
     "C08.repaired_ordereddict_witness",
     "C08.pinned_ordereddict_fallback_counterexample",
+    "C08.memo_indices_are_positions",
+    "C08.memo_indices_distinct",
+    "C08.binget_unambiguous_partial",
+    "C08.reissued_index_is_ambiguous",
+    "C08.pop_reissues_index_counterexample",
 ]
 TRUSTED_EXTRA = [
     "modelled, not verified: md5/sha1 (the theorems are about the byte stream handed to the digest; 'different stream => "
@@ -66,8 +75,13 @@ TRUSTED_EXTRA = [
     "Decimal, Fraction, complex, range, slice, bytearray, instances with __dict__/__slots__/__reduce__/__getstate__): oracle only, no Lean "
     "model (except the top-level OrderedDict stream, `encodeOD`); for OrderedDict the code sorts the items like a dict's, so two orders of "
     "the same items hash alike: only determinism and content discrimination are demanded of it",
-    "outside the universe (property statement / DESIGN C08): aliased sub-objects (the same tuple object twice changes the "
-    "memo stream), NaN as dict key or set element, recursive containers, numpy arrays, user classes",
+    "values with SHARED sub-objects (the same tuple / list / dict / set object occurring twice, a list or dict holding itself): oracle "
+    "only — digests stable under insertion order / PYTHONHASHSEED, and different CONTENT => different digest whatever the sharing; "
+    "whether two values of the same content that differ in their sharing only hash alike is not demanded (on the code as it is a shared "
+    "tuple changes the digest, a shared set does not).  Modelled of them: the memo numbering only (HashMemo, compared with the real "
+    "Hasher.memo); the byte stream of aliased values (BINGET) is not modelled",
+    "outside the universe (property statement / DESIGN C08): NaN as dict key or set element, recursive tuples, numpy arrays, "
+    "arbitrary user classes",
 ]
 
 RULE = ("recursive universe over None/bool/int/float/str/bytes/list/tuple/set/frozenset/dict built from a table of "
@@ -78,18 +92,65 @@ RULE = ("recursive universe over None/bool/int/float/str/bytes/list/tuple/set/fr
         "EXTENDED universe (oracle only, counted separately as 'oracle-only-values'): the same generator with, at every nesting position, "
         "OrderedDict / dict subclass / defaultdict / Counter / deque / list, tuple, set, frozenset subclasses / namedtuples / IntEnum, IntFlag "
         "members / Decimal / Fraction / complex / range / slice / bytearray / instances with __dict__, __slots__, __reduce__, __getstate__ "
-        "(classes of harness/props/c08_types.py): values pickled through reduce, dictitems, listitems and setstate")
+        "(classes of harness/props/c08_types.py): values pickled through reduce, dictitems, listitems and setstate. "
+        "SHARED REFERENCES (oracle only, 'oracle-only-values (shared references)'): families of one skeleton — 0..2 memoised objects, a "
+        "set / frozenset / dict / subclass / OrderedDict of 1..3 memoisable elements (tuples, nested tuples, namedtuples, frozensets; orderable "
+        "and digest-fallback), 0..7 more memoised objects — whose last part ranges over a reference to every object of the value (the value "
+        "itself included: cyclic lists / dicts), unshared copies and changed leaves; small scope exhaustively (corpus_aliased)")
 
 # ----------------------------------------------------------------------------- descs <-> Python values
 # desc := ["N"] | ["b", bool] | ["i", "<decimal>"] | ["f", "<16 hex digits of pack('>d')>"] | ["s", "<hex utf-8 surrogatepass>"]
 #       | ["y", "<hex>"] | ["l", [desc…]] | ["t", [desc…]] | ["e", [desc…]] (set) | ["z", [desc…]] (frozenset)
 #       | ["d", [[kdesc, vdesc]…]]          children of e/z/d are in INSERTION order
+#       | ["@", label, desc]  the object `desc`, labelled   | ["r", label]  that very object again (a reference comes after the
+#         definition of its label in listed order; a labelled list / dict may hold a reference to itself)
 
 
 def build(d, order=None, strings=None):
     """desc -> fresh Python value.  order: None (insertion order as listed) | "rev" | random.Random (shuffle);
-    strings: None (every str/bytes a new object) | dict (equal strings share one object)."""
+    strings: None (every str/bytes a new object) | dict (equal strings share one object).
+    A desc with labelled objects (`["@", name, desc]`) and references to them (`["r", name]`) denotes a value with SHARED
+    sub-objects (see `aliased`); every call builds a fresh copy of the whole object graph."""
+    return _build(d, order, strings, {} if aliased(d) else None)
+
+
+def aliased(d):
+    """Does the desc hold a labelled object or a reference?"""
+    if d[0] in ("@", "r"):
+        return True
+    return any(aliased(c) for c in children(d))
+
+
+def _inserted(items, order, env, bf):
+    """The built parts of a hash container in the order in which they are to be inserted.  Without labels: permute, then
+    build (as ever).  With labels every part is built in LISTED order first (a reference must come after the definition
+    of its label), and the built parts are then permuted (the same permutation: it depends on the length only)."""
+    if env is None:
+        return [bf(x) for x in _order(items, order)]
+    return _order([bf(x) for x in items], order)
+
+
+def _build(d, order, strings, env):
     t = d[0]
+    if t == "@":
+        # a labelled object.  list / dict are registered BEFORE their parts are built: they may hold themselves
+        name, inner = d[1], d[2]
+        if inner[0] == "l":
+            out = env[name] = []
+            for x in inner[1]:
+                out.append(_build(x, order, strings, env))
+            return out
+        if inner[0] == "d":
+            out = env[name] = {}
+            for k, v in _inserted(inner[1], order, env, lambda kv: (_build(kv[0], order, strings, env), _build(kv[1], order, strings, env))):
+                out[k] = v
+            return out
+        v = env[name] = _build(inner, order, strings, env)
+        return v
+    if t == "r":
+        if env is None or d[1] not in env:
+            raise core.InfraError(f"reference to an undefined label {d[1]!r}")
+        return env[d[1]]
     if t == "N":
         return None
     if t == "b":
@@ -112,28 +173,24 @@ def build(d, order=None, strings=None):
         if strings is not None:
             strings[("y", d[1])] = v
         return v
+    b = lambda x: _build(x, order, strings, env)  # noqa: E731
     if t == "l":
-        return [build(x, order, strings) for x in d[1]]
+        return [b(x) for x in d[1]]
     if t == "t":
-        return tuple([build(x, order, strings) for x in d[1]])
+        return tuple([b(x) for x in d[1]])
     if t == "x":
-        return build_x(d[1], d[2], order, strings)
-    parts = list(d[1])
-    if order == "rev":
-        parts.reverse()
-    elif order is not None:
-        order.shuffle(parts)
+        return build_x(d[1], d[2], order, strings, env)
     if t == "e":
         out = set()
-        for x in parts:
-            out.add(build(x, order, strings))
+        for x in _inserted(d[1], order, env, b):
+            out.add(x)
         return out
     if t == "z":
-        return frozenset([build(x, order, strings) for x in parts])
+        return frozenset(_inserted(d[1], order, env, b))
     if t == "d":
         out = {}
-        for k, v in parts:
-            out[build(k, order, strings)] = build(v, order, strings)
+        for k, v in _inserted(d[1], order, env, lambda kv: (b(kv[0]), b(kv[1]))):
+            out[k] = v
         return out
     raise core.InfraError(f"bad desc {d!r}")
 
@@ -157,8 +214,8 @@ def _order(parts, order):
     return parts
 
 
-def build_x(kind, p, order, strings):
-    b = lambda x: build(x, order, strings)  # noqa: E731
+def build_x(kind, p, order, strings, env=None):
+    b = lambda x: _build(x, order, strings, env)  # noqa: E731
     if kind in X_SEQ:
         xs = [b(x) for x in p]
         if kind == "dq":
@@ -180,19 +237,19 @@ def build_x(kind, p, order, strings):
         if kind == "gs":
             return T.Stateful(xs[0])
     if kind in X_USET:
-        xs = [b(x) for x in _order(p, order)]
+        xs = _inserted(p, order, env, b)
         return dict(ssub=T.SetSub, ssub2=T.SetSub2, zsub=T.FrozenSub, zsub2=T.FrozenSub2)[kind](xs)
     if kind == "od":
         return collections.OrderedDict([(b(k), b(v)) for k, v in p])
     if kind in X_PAIRS:
         out = {"dsub": T.DictSub, "dsub2": T.DictSub2, "ddi": lambda: collections.defaultdict(int), "ddl": lambda: collections.defaultdict(list),
                "ctr": collections.Counter}[kind]()
-        for k, v in _order(p, order):
-            out[b(k)] = b(v)
+        for k, v in _inserted(p, order, env, lambda kv: (b(kv[0]), b(kv[1]))):
+            out[k] = v
         return out
     if kind in X_ATTRS:
         cls = T.Plain if kind == "obj" else T.Plain2
-        return cls(**{n: b(v) for n, v in _order(p, order)})
+        return cls(**dict(_inserted(p, order, env, lambda nv: (nv[0], b(nv[1])))))
     if kind == "enum":
         return T.ENUMS[p]
     if kind == "dec":
@@ -215,6 +272,8 @@ def children(d):
         return list(d[1])
     if t == "d":
         return [x for kv in d[1] for x in kv]
+    if t == "@":
+        return [d[2]]
     if t == "x":
         k, p = d[1], d[2]
         if k in X_SEQ or k in X_USET:
@@ -227,33 +286,123 @@ def children(d):
 
 
 def canon(d):
-    """Identity of the VALUE a desc denotes: insertion order of set/frozenset/dict parts forgotten."""
+    """Identity of the VALUE a desc denotes: insertion order of set/frozenset/dict parts forgotten.  For a desc with labels
+    and references it is the identity of the OBJECT GRAPH (content and sharing; label names forgotten): two descs with the
+    same `canon` must hash alike, and on the unchanged code sharing may legitimately change the digest."""
+    return _gcanon(d) if aliased(d) else _tcanon(d)
+
+
+def content(d):
+    """Identity of the CONTENT of the value (what `==`, made type-strict, sees): every reference replaced by the content
+    of its target.  Two values whose `content` differs must get different digests whatever their sharing; a cyclic value
+    is unfolded to depth CYCLE_DEPTH (two truncated unfoldings that differ are unfoldings of different infinite trees)."""
+    if not aliased(d):
+        return _tcanon(d)
+    env = labels(d)
+    return _walk(d, env, None, CYCLE_DEPTH if _cyclic(d, env) else None)
+
+
+CYCLE_DEPTH = 14
+
+
+def labels(d, acc=None):
+    """label -> desc of the labelled object"""
+    acc = {} if acc is None else acc
+    if d[0] == "@":
+        acc[d[1]] = d[2]
+    for c in children(d):
+        labels(c, acc)
+    return acc
+
+
+def _refcount(d, acc):
+    if d[0] == "r":
+        acc[d[1]] = acc.get(d[1], 0) + 1
+    for c in children(d):
+        _refcount(c, acc)
+    return acc
+
+
+def _cyclic(d, env, inside=()):
+    if d[0] == "r":
+        return d[1] in inside or _cyclic(env[d[1]], env, inside + (d[1],))
+    if d[0] == "@":
+        inside = inside + (d[1],)
+    return any(_cyclic(c, env, inside) for c in children(d))
+
+
+def _gcanon(d):
+    env = labels(d)
+    return _walk(d, env, dict(num={}, refs=_refcount(d, {})), None)
+
+
+def _walk(d, env, st, fuel):
+    """st None: content (tree unfolding, cut when `fuel` nesting levels are used up); st given: the object graph, shared
+    objects numbered in order of first visit.  Parts of hash containers are visited in the order of their keys' content
+    (keys and elements are acyclic and pairwise different in content)."""
+    if fuel is not None and fuel <= 0:
+        return "…"
+    nf = None if fuel is None else fuel - 1
+    w = lambda x: _walk(x, env, st, nf)  # noqa: E731
+    key = lambda x: _walk(x, env, None, None)  # noqa: E731
+    t = d[0]
+    if t in ("@", "r"):
+        name = d[1]
+        target = d[2] if t == "@" else env[name]
+        if st is None or not st["refs"].get(name):
+            return _walk(target, env, st, fuel)
+        if name in st["num"]:
+            return "r%d" % st["num"][name]
+        st["num"][name] = n = len(st["num"])
+        return "@%d:" % n + _walk(target, env, st, fuel)
+    if t in ("N", "b", "i", "f", "s", "y"):
+        return json.dumps(d)
+    if t in ("l", "t"):
+        return t + "[" + ",".join([w(x) for x in d[1]]) + "]"
+    if t in ("e", "z"):
+        return t + "{" + ",".join([w(x) for x in sorted(d[1], key=key)]) + "}"
+    if t == "d":
+        return "d{" + ",".join([w(k) + ":" + w(v) for k, v in sorted(d[1], key=lambda kv: key(kv[0]))]) + "}"
+    k, p = d[1], d[2]
+    if k in X_SEQ:
+        return "x:" + k + "[" + ",".join([w(x) for x in p]) + "]"
+    if k in X_USET:
+        return "x:" + k + "{" + ",".join([w(x) for x in sorted(p, key=key)]) + "}"
+    if k in X_PAIRS or k in X_PAIRS_ORD:
+        return "x:" + k + "{" + ",".join([w(a) + ":" + w(b) for a, b in sorted(p, key=lambda kv: key(kv[0]))]) + "}"
+    if k in X_ATTRS:
+        return "x:" + k + "{" + ",".join([n + "=" + w(v) for n, v in sorted(p, key=lambda nv: nv[0])]) + "}"
+    return _tcanon(d)
+
+
+def _tcanon(d):
+    """`canon` of a desc without labels / references (a tree)."""
     t = d[0]
     if t in ("N", "b", "i", "f", "s", "y"):
         return json.dumps(d)
     if t in ("l", "t"):
-        return t + "[" + ",".join(canon(x) for x in d[1]) + "]"
+        return t + "[" + ",".join(_tcanon(x) for x in d[1]) + "]"
     if t in ("e", "z"):
-        return t + "{" + ",".join(sorted(canon(x) for x in d[1])) + "}"
+        return t + "{" + ",".join(sorted(_tcanon(x) for x in d[1])) + "}"
     if t == "x":
         k, p = d[1], d[2]
         if k in X_SEQ:
-            return "x:" + k + "[" + ",".join(canon(x) for x in p) + "]"
+            return "x:" + k + "[" + ",".join(_tcanon(x) for x in p) + "]"
         if k in X_USET:
-            return "x:" + k + "{" + ",".join(sorted(canon(x) for x in p)) + "}"
+            return "x:" + k + "{" + ",".join(sorted(_tcanon(x) for x in p)) + "}"
         if k in X_PAIRS or k in X_PAIRS_ORD:
             # OrderedDict: two orders of the same items ARE different Python values, but Hasher sorts the items of every
             # mapping it pickles (dictitems go through _batch_setitems), so they hash alike.  The property speaks of
             # dicts/sets/frozensets; for OrderedDict only determinism and CONTENT discrimination are demanded here.
-            return "x:" + k + "{" + ",".join(sorted(canon(a) + ":" + canon(b) for a, b in p)) + "}"
+            return "x:" + k + "{" + ",".join(sorted(_tcanon(a) + ":" + _tcanon(b) for a, b in p)) + "}"
         if k in X_ATTRS:
-            return "x:" + k + "{" + ",".join(sorted(n + "=" + canon(v) for n, v in p)) + "}"
+            return "x:" + k + "{" + ",".join(sorted(n + "=" + _tcanon(v) for n, v in p)) + "}"
         if k == "frac":
             # Fraction(3, 3) IS Fraction(1, 1): the constructor normalises, two spellings of one value are one value
             fr = fractions.Fraction(int(p[0]), int(p[1]))
             return "x:frac:" + json.dumps([str(fr.numerator), str(fr.denominator)])
         return "x:" + k + ":" + json.dumps(p)
-    return "d{" + ",".join(sorted(canon(k) + ":" + canon(v) for k, v in d[1])) + "}"
+    return "d{" + ",".join(sorted(_tcanon(k) + ":" + _tcanon(v) for k, v in d[1])) + "}"
 
 
 def kinds(d, acc=None):
@@ -332,6 +481,26 @@ def h_table(joblib, obj, tab):
             tab[s.hex()] = dg
             h_table(joblib, k, tab)
             h_table(joblib, v, tab)
+
+
+class _LogMemo(dict):
+    """`Pickler.memo` that records every entry made: (index issued) in the order of the `memoize` calls."""
+
+    def __init__(self):
+        super().__init__()
+        self.log = []
+
+    def __setitem__(self, k, v):
+        self.log.append(v[0])
+        super().__setitem__(k, v)
+
+
+def memo_trace(joblib, v):
+    """The memo indices the real Hasher issues while hashing `v`, in the order of issue."""
+    h = joblib.hashing.Hasher()
+    h.memo = _LogMemo()
+    h.hash(v)
+    return list(h.memo.log)
 
 
 def impl_is_old(joblib):
@@ -650,6 +819,164 @@ def corpus_x():
     return out
 
 
+# ----------------------------------------------------------------------------- values with SHARED sub-objects (oracle only)
+# The memo of the pickler is part of what `Hasher` feeds to the digest: the second occurrence of an object is written as a
+# reference (BINGET <index of the first occurrence>).  Discrimination between such values rests on the memo numbering: two
+# live objects must never answer to one index.  Families: ONE skeleton — some memoised objects, a hash container
+# (set / frozenset / dict / their subclasses) of memoisable elements, more memoised objects, references — whose LAST part
+# ranges over a reference to EVERY labelled object of the value (elements of the container, their inner tuples, the objects
+# before and after it, the container, the value itself), over unshared copies of them and over changed leaves.
+
+
+def _unlabel(d, env):
+    """The desc of an unshared copy of the content (acyclic targets only)."""
+    t = d[0]
+    if t == "@":
+        return _unlabel(d[2], env)
+    if t == "r":
+        return _unlabel(env[d[1]], env)
+    if t in ("l", "t", "e", "z"):
+        return [t, [_unlabel(x, env) for x in d[1]]]
+    if t == "d":
+        return ["d", [[_unlabel(k, env), _unlabel(v, env)] for k, v in d[1]]]
+    if t == "x" and (d[1] in X_SEQ or d[1] in X_USET):
+        return ["x", d[1], [_unlabel(x, env) for x in d[2]]]
+    if t == "x" and (d[1] in X_PAIRS or d[1] in X_PAIRS_ORD):
+        return ["x", d[1], [[_unlabel(k, env), _unlabel(v, env)] for k, v in d[2]]]
+    if t == "x" and d[1] in X_ATTRS:
+        return ["x", d[1], [[n, _unlabel(v, env)] for n, v in d[2]]]
+    return d
+
+
+TOPS = ["l", "l", "l", "t", "d", "d", "od", "obj", "dq", "lsub", "nest"]
+HASH_CONTAINERS = ["e", "e", "z", "z", "d", "d", "ssub", "zsub", "dsub", "od"]
+
+
+def aliased_family(rng, top=None, hc=None, n_before=None, n_after=None, elem_shapes=None, small=False):
+    """-> list of descs of one family (see above).  All arguments default to random choices."""
+    labs = []
+
+    def L(desc):
+        labs.append("o%d" % len(labs))
+        return ["@", labs[-1], desc]
+
+    num = lambda: gen_hashable(rng, 0, "num")  # noqa: E731
+    leaf = (lambda: _i(rng.choice([0, 1, 2, 255, 256]))) if small else (lambda: gen_leaf(rng))
+
+    def elem(i, shape):
+        # the i-th key / element: memoisable, hashable, pairwise different (and ordered) by the first component
+        if shape == "pair":
+            return L(["t", [_i(i), num()]])
+        if shape == "nested":
+            return L(["t", [_i(i), L(["t", [num()]])]])
+        if shape == "deep":
+            return L(["t", [L(["t", [_i(i), L(["t", [num(), num()]])]]), num()]])
+        if shape == "long":
+            return L(["t", [_i(i), num(), num(), num()]])
+        if shape == "nt":
+            return L(["x", "nt_point", [_i(i), L(["t", [num()]])]])
+        if shape == "fz":          # a frozenset element: the digest fallback (it is hashed on its own, with a fresh memo)
+            return L(["z", [_i(i), _i(i + 100)]])
+        if shape == "strtuple":    # next to int-first tuples: unorderable, the digest fallback
+            return L(["t", [_s("k%d" % i), num()]])
+        return L(["t", [_i(i), L(["z", [num()]])]])  # "holdsfz": the digest fallback
+
+    def filler():
+        r = rng.random()
+        if r < 0.4:
+            return L(["l", [leaf()]])
+        if r < 0.5:
+            return L(["l", []])
+        if r < 0.62:
+            return L(["t", [leaf()]])
+        if r < 0.72:
+            return L(["d", [[_s("a"), leaf()]]])
+        if r < 0.82:
+            return L(["l", [L(["l", [leaf()]])]])
+        if r < 0.9:
+            return L(["e", [_i(k) for k in rng.sample(range(6), rng.choice([1, 2]))]])
+        return L(["t", [leaf(), L(["l", []])]])
+
+    top = top or rng.choice(TOPS)
+    hc = hc or rng.choice(HASH_CONTAINERS)
+    n_before = rng.choice([0, 0, 0, 1, 2]) if n_before is None else n_before
+    n_after = rng.choice([0, 1, 2, 3, 3, 4, 5, 6, 7]) if n_after is None else n_after
+    if elem_shapes is None:
+        n_el = rng.choice([1, 1, 2, 3])
+        if rng.random() < 0.7:
+            elem_shapes = [rng.choice(["pair", "pair", "nested", "deep", "long", "nt"]) for _ in range(n_el)]
+        else:
+            elem_shapes = [rng.choice(["pair", "nested", "fz", "strtuple", "holdsfz"]) for _ in range(n_el)]
+    before = [filler() for _ in range(n_before)]
+    elems = [elem(i + 1, sh) for i, sh in enumerate(elem_shapes)]
+    if hc in ("e", "z"):
+        H = L([hc, elems])
+    elif hc in ("ssub", "zsub"):
+        H = L(["x", hc, elems])
+    elif hc == "d":
+        H = L(["d", [[e, filler() if rng.random() < 0.4 else leaf()] for e in elems]])
+    else:
+        H = L(["x", hc, [[e, filler() if rng.random() < 0.4 else leaf()] for e in elems]])
+    if rng.random() < 0.2:
+        H = L(["l", [H]])
+    after = [filler() for _ in range(n_after)]
+    selfref = top in ("l", "d", "nest")
+    targets = list(labs) + (["top"] if selfref else [])
+    # (the value itself is referenced by the last part only: one back edge, the unfolding of `content` stays linear)
+    middle = [["r", rng.choice(labs)] for _ in range(rng.choice([0, 0, 0, 1, 2]))] if not small else []
+    parts = before + [H] + after + middle
+    env = {}
+    for x in parts:
+        labels(x, env)
+    shown = targets if len(targets) <= 12 else rng.sample(targets, 12)
+    lasts = [["r", n] for n in shown]
+    lasts += [_unlabel(env[n], env) for n in rng.sample(labs, min(len(labs), 1 if small else 2))]
+    lasts += [leaf()]
+
+    def wrap(ps):
+        if top == "l":
+            return ["@", "top", ["l", ps]]
+        if top == "nest":
+            return ["@", "top", ["l", [["l", ps[:-1]], ps[-1]]]]
+        if top == "t":
+            return ["t", ps]
+        if top in ("dq", "lsub"):
+            return ["x", top, ps]
+        named = [["f%02d" % i, x] for i, x in enumerate(ps)]   # sorted order of the names = the listed order
+        if top == "obj":
+            return ["x", "obj", named]
+        pairs = [[_s(n), x] for n, x in named]
+        return ["@", "top", ["d", pairs]] if top == "d" else ["x", "od", pairs]
+
+    out = [wrap(parts + [x]) for x in lasts]
+    if after and not small:
+        # one leaf of an object that the last reference does NOT point to is changed
+        changed = list(after)
+        j = rng.randrange(len(after))
+        name, inner = after[j][1], after[j][2]
+        if inner[0] in ("l", "t"):   # the object keeps its label (it may be referenced), it has one more item
+            changed[j] = ["@", name, [inner[0], inner[1] + [leaf()]]]
+            out.append(wrap(before + [H] + changed + middle + [lasts[0]]))
+    return out
+
+
+def corpus_aliased():
+    """Small scope, exhaustively: a hash container of one or two memoisable elements, 0..7 one-item lists behind it, the last
+    part a reference to each object in turn."""
+    import random
+
+    out = []
+    for hc in ("e", "z", "d"):
+        for n_after in range(8):
+            for shapes in ((["pair"], ["nested", "pair"])[n_after % 2],):
+                out += aliased_family(random.Random(f"{hc}/{shapes}/{n_after}"), top="l", hc=hc, n_before=0, n_after=n_after,
+                                      elem_shapes=shapes, small=True)
+    return out
+
+
+N_ALIASED_FAMILIES = dict(quick=20, thorough=500)
+
+
 N_EXTENDED = dict(quick=320, thorough=2500)
 
 
@@ -679,11 +1006,16 @@ def universe(ctx, joblib, n, salt, with_big=True):
             descs.append(d)
     finally:
         X_RATE[0] = 0.0
+    if n and with_big:
+        ra = ctx.rng(salt + "/aliased")
+        descs += corpus_aliased()
+        for _ in range(N_ALIASED_FAMILIES["thorough" if ctx.thorough else "quick"]):
+            descs += aliased_family(ra)
     twins = {}
     base = len(descs)
     for i in range(base):
         d = descs[i]
-        if kinds(d) & {"e", "z", "d"} and (i < len(CORPUS) or rng.random() < 0.25) and size(d) < 200:
+        if not aliased(d) and kinds(d) & {"e", "z", "d"} and (i < len(CORPUS) or rng.random() < 0.25) and size(d) < 200:
             tw = digest_twin(joblib, d, rng)
             if tw is not None:
                 twins[len(descs)] = i
@@ -771,6 +1103,10 @@ X_NAME = dict(dsub2="dict-subclass", lsub2="list-subclass", tsub2="tuple-subclas
 
 
 def type_name(d):
+    if d[0] == "@":
+        return type_name(d[2])
+    if d[0] == "r":
+        return "reference"
     return X_NAME[d[1]] if d[0] == "x" else TYPE_NAME[d[0]]
 
 
@@ -832,16 +1168,23 @@ def oracle(ctx, joblib, res, descs, twins, salt):
         if nontrivial(d):
             res.nontrivial.add(canon(d))
         res.count("top=" + type_name(d))
-        res.count("oracle-only-values (extended universe)" if extended(d) else "model+oracle-values")
+        res.count("oracle-only-values (shared references)" if aliased(d) else "oracle-only-values (extended universe)" if extended(d)
+                  else "model+oracle-values")
+        if aliased(d):
+            res.count("shared: cyclic" if _cyclic(d, labels(d)) else "shared: acyclic")
         res.count("containers=" + tag)
     # (d) all pairs: equal digest <=> same value.  Grouping by digest covers every pair.
     n = len(descs)
     res.evaluations += n * (n - 1) // 2
     res.count("pairs-compared", n * (n - 1) // 2)
     for dg, idxs in by_digest.items():
+        if len(idxs) == 1:
+            continue
         cs = {}
         for i in idxs:
-            cs.setdefault(canon(descs[i]), i)
+            # `content`, not `canon`: two values of the same content that differ in their sharing only may hash alike (a set
+            # object occurring twice is not memoised) or not (a tuple object occurring twice is); neither is demanded
+            cs.setdefault(content(descs[i]), i)
         if len(cs) > 1:
             reps = sorted(cs.values(), key=lambda i: size(descs[i]))
             a = reps[0]
@@ -851,6 +1194,8 @@ def oracle(ctx, joblib, res, descs, twins, salt):
             for b in reps[1:]:
                 if frozenset((canon(descs[a]), canon(descs[b]))) in twin_values:
                     sig = "collision:fallback-keys-vs-their-own-digest-strings"
+                elif aliased(descs[a]) or aliased(descs[b]):
+                    sig = "collision:values-with-shared-references"
                 else:
                     sig = "collision:" + first_difference(descs[a], descs[b])
                 fails.append((size(descs[a]) + size(descs[b]), sig, dict(kind="pair", desc=descs[a], other=descs[b]), f"both hash to {dg}"))
@@ -893,6 +1238,15 @@ def correspond(ctx, joblib, res, descs):
             res.evaluations += 1
             if got != hashlib.new(name, s2).hexdigest() or s2 != stream:
                 res.diverge("digest-is-" + name + "-of-stream", d, got, hashlib.new(name, s2).hexdigest())
+        if aliased(d) or size(d) < 60:
+            # the memo numbering (model: HashMemo.run): the i-th object memoised during the dump gets index i
+            issued = memo_trace(joblib, build(d))
+            reqs.append(" ".join(["memo"] + [str(i) for i in range(len(issued))]))
+            meta.append((d, " ".join(str(i) for i in issued), "memo-numbering"))
+            res.count("memo-traces")
+        if aliased(d):
+            res.count("stream-correspondence-skipped (shared references)")
+            continue
         if extended(d):
             # outside the model's PyVal: oracle only — except a top-level OrderedDict of modelled items (`encodeOD`, F40)
             res.count("correspondence-skipped (extended universe)")
@@ -922,12 +1276,12 @@ def correspond(ctx, joblib, res, descs):
     # malformed requests must be rejected, never defaulted
     bad = ["", "enc", "enc fixed 0", "enc fixed 0 X", "enc new 0 N", "enc fixed 1 N", "enc fixed 0 L2 N", "enc fixed 0 N N", "enc fixed 0 Szz",
            "enc fixed 0 D00", "enc fixed 0 I1.5", "enc fixed 1 80 abc N", "hash fixed 0 N", "enc fixed 0 M1 N",
-           "encod fixed 0 M0", "encod repaired 0 N", "encod repaired 0 L0", "encod repaired 0 M1 N"]
+           "encod fixed 0 M0", "encod repaired 0 N", "encod repaired 0 L0", "encod repaired 0 M1 N", "memo 0 0", "memo 0 x", "memo -1"]
     replies = ctx.driver().run(reqs + bad)
     for (d, want, stream_name), rep in zip(meta, replies):
         res.traces_validated += 1
-        if rep != "ok " + want:
-            res.diverge(stream_name, d, want, rep[3:] if rep.startswith("ok ") else rep)
+        if rep != ("ok " + want).rstrip():
+            res.diverge(stream_name, d, want, rep[3:] if rep.startswith("ok") else rep)
     for b, rep in zip(bad, replies[len(reqs):]):
         if rep != "bad-op":
             res.diverge("malformed-request", b, "bad-op", rep)
@@ -976,7 +1330,7 @@ def _explore(ctx, n, salt, extra=(), only=None):
     if only is not None:
         descs, twins = list(only), {}
         if len(only) == 2:
-            twins = {1: 0} if _is_twin(joblib, only[0], only[1]) else {}
+            twins = {1: 0} if not (aliased(only[0]) or aliased(only[1])) and _is_twin(joblib, only[0], only[1]) else {}
     else:
         descs, twins = universe(ctx, joblib, n, salt)
         descs = list(extra) + descs
@@ -985,7 +1339,9 @@ def _explore(ctx, n, salt, extra=(), only=None):
         res.sample(d if size(d) < 30 else ["…", d[0], size(d)])
     oracle(ctx, joblib, res, descs, twins, salt)
     correspond(ctx, joblib, res, descs)
-    res.assumptions = ["no aliased sub-objects (every tuple/list/dict/set is a fresh object; str/bytes identity is varied on purpose)",
+    res.assumptions = ["model universe: no aliased sub-objects (every tuple/list/dict/set is a fresh object; str/bytes identity is varied on "
+                       "purpose); values with shared references are judged by the oracle only (content differs => digest differs; stable "
+                       "under insertion order and PYTHONHASHSEED) and by the memo-numbering correspondence (HashMemo)",
                        "no NaN among dict keys / set elements", "md5/sha1 collision-free on the streams compared"]
     res.notes.append("observed, outside the property's domain: the same tuple object occurring twice in a value is memoised by identity "
                      "(BINGET), so `t=(1,); [t, t]` and `[(1,), tuple([1])]` hash differently; the harness builds every tuple afresh")
@@ -1024,6 +1380,9 @@ def search(ctx, res):
     near = [dv["case"] for dv in res.divergences if isinstance(dv.get("case"), list)]
     extra = []
     for d in near[:20]:
+        if aliased(d):   # labels must stay unique within a value
+            extra += [d]
+            continue
         extra += [d, ["l", [d]], ["t", [d, d]], ["l", [d, d]], ["d", [[_s("k"), d]]]]
     return _explore(ctx, 4000, "search", extra=extra)
 
